@@ -3,7 +3,7 @@
    linear work — is carried by the sanitizer / guard-page / valgrind / callgrind runs of the C06 check on the real code. *)
 From Coq Require Import List NArith ZArith Bool.
 From Coq Require Import Strings.Byte.
-Require Import Bytes Codes Local Local6531 Domain Ip Special Email Api ApiProofs TldProofs EnumTie SafetyProofs LocalA DomainA.
+Require Import Bytes Codes Local Local6531 Domain Ip Special Email Api ApiProofs TldProofs EnumTie SafetyProofs LocalA DomainA Local6531A.
 Require Gen.GenEnums.
 Import ListNotations.
 
@@ -46,6 +46,13 @@ Theorem C06_domain_scanner_access_model :
   forall us s rest, ascii_domainA us (s ++ rest ++ [NUL]) (length s) = RetA (ascii_domain us s rest).
 Proof. exact ascii_domainA_refines. Qed.
 Print Assumptions C06_domain_scanner_access_model.
+(* the UTF-8 decoder (get / cont with the_index, the_length, the_byte) and is_6531_local (start[prev], start[pos + 1]) over a
+   buffer cut off right at the end pointer: for every input and every build option no read at or after start + length,
+   none before start, and the functional model's code *)
+Theorem C06_utf8_scanner_access_model :
+  forall g s, local6531A g s (length s) = RetA (local6531 g s).
+Proof. exact local6531A_reads_below_end. Qed.
+Print Assumptions C06_utf8_scanner_access_model.
 
 (* look-ahead discipline: whatever lies beyond the end pointer can influence a scanner only through the byte at [end] *)
 Theorem C06_local_lookahead :
